@@ -250,15 +250,25 @@ def verify_shape(ctx, r: Rust):
            'no path rejects when claims are left over', where)
 
 
-def subst_conformance(ctx, r: Rust):
+STRUCTURAL_VARIANTS = ('EVar', 'SVar', 'Symbol', 'Implies', 'App', 'Exists', 'Mu')
+
+
+def subst_conformance(ctx, r: Rust, only_structural: bool = False):
+    """only_structural (C01): the arms whose result is DETERMINED by soundness - leaves, connectives, binders (shadowing, capture).
+    The deferral arms (metavariables, pending substitutions) and instantiate admit several sound representations; which one the
+    checker uses matters for agreement with the generator and the document (C02, C05, C11), not for validity."""
     for short, kind in (('apply_esubst', 'e'), ('apply_ssubst', 's')):
         got = RS.subst_outcomes(r, short)
         spec = SS.subst_table(kind, 'rust')
         for v in spec:
-            m = RS.compare(v, got[v], spec[v])
+            if only_structural and v not in STRUCTURAL_VARIANTS:
+                continue
+            m = RS.compare(v, got[v], spec[v], refuse_ok=only_structural)
             ctx.ob('subst-arm', f'{short}/{v}', m is None, m or '', r.line_of(short),
                    facts={'code': [(sorted(map(str, c)), RS.show(o)) for c, o in got[v]],
                           'table': [(sorted(map(str, c)), RS.show(o)) for c, o in spec[v]]})
+    if only_structural:
+        return
     got, mv = RS.inst_outcomes(r)
     spec = SS.inst_table()
     for v in got:
